@@ -223,9 +223,15 @@ def run_filter(ctx, tool, case, tag="c"):
         os.remove(os.path.join(d, f))
     mpath = os.path.join(d, "model")
     open(mpath, "wb").write(render_model(case))
-    args = ["timeout", "20", tool, case["mode"]] + (["context"] if case["ctx"] else []) + (["phrase"] if case["phrase"] else []) + \
-        ["arpa" if case["fmt"] == "arpa" else "raw", "threads:1", "model:" + mpath, os.path.join(d, "out")]
-    rc, out, err = vlib.sh(args, input=case["vocab"], timeout=30)
+    head = ["timeout", "20", tool, case["mode"]] + (["context"] if case["ctx"] else []) + (["phrase"] if case["phrase"] else []) + \
+        ["arpa" if case["fmt"] == "arpa" else "raw", "threads:1"]
+    if case.get("vocab_as_file"):
+        # the other calling convention: vocabulary from a file, model on stdin
+        vpath = os.path.join(d, "vocab")
+        open(vpath, "wb").write(case["vocab"])
+        rc, out, err = vlib.sh(head + ["vocab:" + vpath, os.path.join(d, "out")], input=render_model(case), timeout=30)
+    else:
+        rc, out, err = vlib.sh(head + ["model:" + mpath, os.path.join(d, "out")], input=case["vocab"], timeout=30)
     files = []
     if case["mode"] == "multiple":
         j = 0
@@ -311,7 +317,7 @@ def gen_case(rng):
     fmt = rng.choice(["arpa", "arpa", "raw"])
     vocab = gen_vocab(rng, phrase)
     pool = rng.choice([PLAIN[:3], PLAIN[:3], PLAIN[:5], PLAIN, WORDS])
-    case = {"mode": mode, "ctx": ctx, "phrase": phrase, "fmt": fmt, "vocab": vocab}
+    case = {"mode": mode, "ctx": ctx, "phrase": phrase, "fmt": fmt, "vocab": vocab, "vocab_as_file": rng.chance(1, 4)}
     if fmt == "arpa":
         norders = rng.choice([1, 2, 3, 3, 4])
         secs = []
@@ -341,6 +347,24 @@ def gen_case(rng):
         case["sections"] = [sec]
         case["no_final_newline"] = rng.chance(1, 6)
     return case
+
+
+def gen_exhaustive_phrase_case(rng):
+    """every n-gram up to length 4 over 2-3 word types against 1-3 sentences of 1-3 phrases of 1-3 words"""
+    import itertools
+    W = [b"a", b"b", b"c"][:rng.range(2, 3)]
+    sents = [[[rng.choice(W) for _ in range(rng.range(1, 3))] for _ in range(rng.range(1, 3))] for _ in range(rng.range(1, 3))]
+    vocab = b"".join(b"\t".join(b" ".join(p) for p in s) + b"\n" for s in sents)
+    ngs = [b" ".join(ng) for n in range(1, 5) for ng in itertools.product(W, repeat=n)]
+    if rng.chance(1, 3):
+        ngs = [b"<s> " + g for g in ngs[:20]] + ngs + [g + b" </s>" for g in ngs[:20]]
+    return {"mode": rng.choice(["union", "multiple"]), "ctx": rng.chance(1, 5), "phrase": True, "fmt": "raw", "vocab": vocab,
+            "sections": [[g + b"\t1" for g in ngs]], "no_final_newline": False}
+
+
+def phrase_graph_line(case):
+    grams = [line_ngram(case, l) for sec in case["sections"] for l in sec]
+    return "P %d %s%s" % (case["ctx"], hexs(case["vocab"]), "".join(" " + hexs(g) for g in grams))
 
 
 def gen_sets(rng):
@@ -479,6 +503,7 @@ def run(ctx):
     cases = corpus_cases()
     ctx.count("corpus_cases", len(cases))
     cases += [gen_case(rng) for _ in range(ctx.pick(1500, 12000))]
+    cases += [gen_exhaustive_phrase_case(rng) for _ in range(ctx.pick(60, 1000))]
     impl_ans = []
     nontrivial = set()
     kinds = {}
@@ -516,6 +541,14 @@ def run(ctx):
         for c, a, b in zip(set_cases + cases, sout + impl_ans, mout):
             if a != b:
                 mismatches.append((c, a, b))
+        # the structure-faithful model of the phrase graph search must agree with the decision procedure that the
+        # byte comparison above ties to the tool
+        pcases = [c for c in cases if c["phrase"] and sum(len(x) for x in c["sections"])]
+        pout = vlib.run_lines(model, [phrase_graph_line(c) for c in pcases], timeout=900)
+        for c, o in zip(pcases, pout):
+            if o != "same":
+                mismatches.append((c, "graph-search model == derivable_b", o))
+        ctx.coverage["phrase_graph_model_cases"] = len(pcases)
     except vlib.ModelBroken as e:
         model_broken = str(e)
 
